@@ -2,7 +2,8 @@ package deque
 
 //verif:pkg ./container/deque
 //verif:case C15 quick VerifDequeIter 0..7 -1..6
-//verif:case C15 quick VerifDequeIter 0..5 16
+//verif:case C15 quick VerifDequeIter 1..5 16
+//verif:case C15 thorough VerifDequeIter 0 16
 //verif:case C15 thorough VerifDequeIter 0..7 7..10
 
 // VerifDequeIter: symbolic valid deque of capacity c, Iterate, j x Next, one mid-iteration
